@@ -337,6 +337,10 @@ def generate(rng, tier):
                     # the documented _HTTP_PREFIX_MAP hook (the service reached directly, through a gateway, ...)
                     op["mixin"] = True
                     methods = [dict(mm) for mm in MIXIN_METHODS]
+                    if rng.random() < 0.4:
+                        # the final class redefines one wrapper as a PLAIN method that calls the inherited one
+                        # (post-processing, logging): the wrapper running underneath is still the inherited one
+                        op["override"] = rng.choice(MIXIN_METHODS)["name"]
                 if rng.random() < 0.4:
                     op["helper"] = True     # the wrappers share one private helper that calls get_conn()
                 op["prefix_map"] = pm
@@ -617,6 +621,16 @@ class World:
                 self.mixin_cls = self.sut("class(MCallerHttp) mixin", type, "SimWrappers", (mh.MCallerHttp,), mns)
                 self.stats["mixin_classes"] = 1
             self.stats["mixin_callers"] = self.stats.get("mixin_callers", 0) + 1
+            if op.get("override"):
+                inherited = getattr(self.mixin_cls, op["override"])
+
+                def override(self, verb, path, kw):
+                    """the application's refinement of an inherited wrapper"""
+                    return inherited(self, verb, path, kw)
+                override.__name__ = override.__qualname__ = op["override"]
+                override.__code__ = override.__code__.replace(co_name=op["override"])
+                ns[op["override"]] = override
+                self.stats["plain_overrides"] = self.stats.get("plain_overrides", 0) + 1
             return self.sut("class(mixin)", type, f"SimCaller{op['node']}", (self.mixin_cls,), ns)
         for mm in op["methods"]:
             ns[mm["name"]] = mk(mm["name"], mm["components"])
